@@ -130,6 +130,14 @@ def w_basic(ctx, rng, i):
             fxy = F(a_ * x + b_ * y)
             fa = D.LPF(x.copy(), cut, order)                        # ndarray input
             ctx.check("forms", isinstance(fa, T.electrical_signal) and relerr(fa.signal, fx.signal) <= 1e-12, "LPF(ndarray) != LPF(electrical_signal)")
+            # integer / boolean sample data are real inputs too (e.g. a kron of bits): same result as the same values in float
+            xi = rng.integers(-9, 10, n)
+            fi_arr = D.LPF(xi.copy(), cut, order)
+            fi_el = D.LPF(T.electrical_signal(xi.copy(), rng.integers(-3, 4, n) if noise else None), cut, order)
+            ff = D.LPF(xi.astype(float), cut, order)
+            ctx.check("forms", relerr(fi_arr.signal, ff.signal) <= 1e-12 and relerr(fi_el.signal, ff.signal) <= 1e-12, "LPF of integer-valued samples differs from LPF of the same values as floats (ndarray / container)")
+            xb = rng.integers(0, 2, n).astype(bool)
+            ctx.check("forms", relerr(D.LPF(xb.copy(), cut, order).signal, D.LPF(xb.astype(float), cut, order).signal) <= 1e-12, "LPF of boolean samples differs from LPF of the same values as floats")
             fe = D.LPF(T.electrical_signal(x), cut, order, fs=fs)   # explicit fs equal to gv.fs
             ctx.check("forms", relerr(fe.signal, fx.signal) <= 1e-12, "LPF(fs=gv.fs) != LPF(fs=None)")
             const = float(rng.normal(0, 3))
